@@ -54,6 +54,12 @@ pub fn pool() -> Vec<(&'static str, &'static str)> {
         ("arith-in-base-args", "contract Ba# is A0 ( 1 + 2 ) { }"),
         ("prefix-increments", "contract Pi# { uint256 votes# ; function p# ( uint256 k ) public { ++ k ; -- k ; ++ votes# ; } }"),
         ("free-prefix-increment", "function fp# ( uint256 left ) pure returns ( uint256 ) { -- left ; return left ; }"),
+        // multi-byte characters in one item (byte offsets and character offsets differ from there on)
+        ("multibyte-comment", "contract Mb# { /*~\u{e9}\u{e9}\u{e9}~\u{4e2d}\u{6587}\u{4e2d}\u{6587}\u{4e2d}\u{6587}\u{4e2d}\u{6587}~\u{1f600}\u{1f600}\u{1f600}\u{1f600}\u{1f600}\u{1f600}\u{1f600}\u{1f600}~\u{43f}\u{440}\u{438}\u{432}\u{435}\u{442}~*/ function mb# ( ) public payable { } string s# = unicode\"\u{1f512}\u{1f512}\u{1f512}\u{1f512}\u{1f512}\u{1f512}\" ; }"),
+        // locals and parameters of the same NAME in different items (fixed names): what one item's function does with its
+        // local says nothing about another item's local
+        ("local-from-division", "library Ld# { function quote# ( uint256 reserveOut , uint256 reserveIn ) internal pure returns ( uint256 ) { uint256 rate = reserveOut / reserveIn ; uint256 [ ] memory items ; items [ 0 ] = rate ; return rate ; } }"),
+        ("local-same-name-product", "contract Lp# { function reward# ( uint256 stake , uint256 rate , uint256 [ ] memory items ) external payable returns ( uint256 ) { return rate * stake ; } }"),
         ("library-of-named-struct", "library Ln# { struct Kind { uint128 a ; uint256 b ; uint128 c ; } function _k# ( Price p ) internal { } }"),
     ]
 }
@@ -218,7 +224,7 @@ pub fn run(tier: Tier) -> i32 {
     run.set("evaluations", calls);
     run.set("distinct_nontrivial", outcomes.len() as u64);
     run.set("item_templates", n as u64);
-    run.set("rule", "states = files built from all sequences with repetition of 2 items (x pragma first / between / last) and of 3 items (quick: every 4th; thorough: all, pragma first and last) from a pool of 38 item templates instantiated with fresh identifier suffixes; transitions = detector calls on the whole file and on each item-wise blanked file (28 detectors); oracle = set equality of the whole-file lines with the union of the per-item lines; non-trivial = distinct (detector, whole-file result) outcomes");
+    run.set("rule", "states = files built from all sequences with repetition of 2 items (x pragma first / between / last) and of 3 items (quick: every 4th; thorough: all, pragma first and last) from a pool of 41 item templates instantiated with fresh identifier suffixes; transitions = detector calls on the whole file and on each item-wise blanked file (28 detectors); oracle = set equality of the whole-file lines with the union of the per-item lines; non-trivial = distinct (detector, whole-file result) outcomes");
     run.set("bound_completed", if tier == Tier::Quick { "all pairs x 3 pragma positions; every 4th triple" } else { "all pairs and all triples" });
     run.set("samples", json!(seqs.iter().step_by(seqs.len() / 3 + 1).take(3).map(|(s, p)| json!({"items": s.iter().map(|&i| pool[i].0).collect::<Vec<_>>(), "pragma_position": p})).collect::<Vec<_>>()));
     run.finish()
